@@ -26,7 +26,7 @@ def cmp(op, s, g, t):
     return {"<": s < g, "<=": s <= g, ">=": s >= g, ">": s > g}[op]
 
 
-def h(sym, nclauses, forms):
+def h(sym, nclauses, forms, vr=3):
     clauses = []
     for k in range(nclauses):
         form = forms[k] if forms[k] is not None else FORMS[sym.choice("form%d" % k, len(FORMS))]
@@ -61,8 +61,8 @@ def h(sym, nclauses, forms):
     d = sym.int("dt", 0, 3)
     store.stamp = d
     for v in VARS[:nclauses]:
-        vals[v] = sym.int(v, -3, 3)
-        vals["g" + v] = sym.int("g" + v, -3, 3)
+        vals[v] = sym.int(v, -vr, vr)
+        vals["g" + v] = sym.int("g" + v, -vr, vr)
         store.fetch(v).value = vals[v]
         store.fetch("g" + v).value = vals["g" + v]
     m.runner.send(RUN)
@@ -91,19 +91,21 @@ def h(sym, nclauses, forms):
 
 def e1_obligations(tier):
     out = []
+    vr = 2 if tier == "quick" else 3
     for f in FORMS:
-        out.append(Ob("e1/one-clause/%s" % f, h, dict(nclauses=1, forms=[f]), budget=600, covers=["condition-true", "condition-false"],
-                      bounds=dict(clauses=1, form=f, operators=OPS, literals=LITS, tolerances=TOLS, values="[-3,3]", dt="[0,3]")))
-    pairs = [("direct", "indirect-tol"), ("bare", "elapsed"), ("direct-tol", "recurred")] if tier == "quick" else \
+        out.append(Ob("e1/one-clause/%s" % f, h, dict(nclauses=1, forms=[f], vr=vr), budget=900 if tier == "quick" else 2400,
+                      covers=["condition-true", "condition-false"],
+                      bounds=dict(clauses=1, form=f, operators=OPS, literals=LITS, tolerances=TOLS, values="[-%d,%d]" % (vr, vr), dt="[0,3]")))
+    pairs = [("direct", "bare"), ("bare", "elapsed"), ("recurred", "direct")] if tier == "quick" else \
         [(a, b) for a in FORMS for b in FORMS]
     for (a, b) in pairs:
-        out.append(Ob("e1/two-clauses/%s+%s" % (a, b), h, dict(nclauses=2, forms=[a, b]), budget=900,
+        out.append(Ob("e1/two-clauses/%s+%s" % (a, b), h, dict(nclauses=2, forms=[a, b], vr=2), budget=900 if tier == "quick" else 2400,
                       covers=["condition-true", "condition-false"],
-                      bounds=dict(clauses=2, forms=[a, b], values="[-3,3]")))
+                      bounds=dict(clauses=2, forms=[a, b], values="[-2,2]")))
     if tier != "quick":
         for (a, b, c) in [("direct", "indirect", "bare"), ("indirect-tol", "elapsed", "direct"), ("bare", "bare", "direct-tol")]:
-            out.append(Ob("e1/three-clauses/%s+%s+%s" % (a, b, c), h, dict(nclauses=3, forms=[a, b, c]), budget=2400,
-                          covers=["condition-true"], bounds=dict(clauses=3, forms=[a, b, c], values="[-3,3]")))
+            out.append(Ob("e1/three-clauses/%s+%s+%s" % (a, b, c), h, dict(nclauses=3, forms=[a, b, c], vr=1), budget=2400,
+                          covers=["condition-true"], bounds=dict(clauses=3, forms=[a, b, c], values="[-1,1]")))
     return out
 
 
